@@ -512,7 +512,10 @@ func (tr *gtTr) generalRange(x *ast.RangeStmt, env *venv, next cont) gnode {
 	if x.Tok != token.DEFINE {
 		gtFail("range loop that assigns to existing variables")
 	}
-	list := tr.expr(x.X, env)
+	list, isNodes := tr.stringerList(x.X, env)
+	if !isNodes {
+		list = tr.expr(x.X, env)
+	}
 	if list.typ.kind == kString && list.typ != tBytes {
 		return tr.runeRange(x, env, next)
 	}
